@@ -67,7 +67,9 @@ func validateHeader(wf *WarcFields, version *WarcVersion, validation *Validation
 			name, def := normalizeName(nv.Name)
 			value, err := def.validationFunc(opts, name, nv.Value, version, rt, def)
 			nv.Name = name
-			nv.Value = value
+			if err == nil {
+				nv.Value = value
+			}
 			if err != nil {
 				switch opts.errSpec {
 				case ErrWarn:
